@@ -95,7 +95,7 @@ fn parse_cfg(s: &str) -> Option<Cfg> {
             c.closures = r.parse().ok()?;
         } else if let Some(r) = t.strip_prefix("io=") {
             let v: Vec<char> = r.chars().collect();
-            if v.len() != 3 || v.iter().any(|x| !"inpr".contains(*x)) {
+            if v.len() != 3 || v.iter().any(|x| !"inproe".contains(*x)) {
                 return None;
             }
             c.io = [v[0], v[1], v[2]];
@@ -175,10 +175,20 @@ fn case_main(cfgs: &str, faults: &str) {
     if cfg.clu {
         unsafe { cmd.pre_exec(|| Err(tiny_std::Error::Uncategorized("closure"))) };
     }
+    // 'o' / 'e': wire the stream to the CALLER's own stdout / stderr (`2>&1`-style cross-wiring).  spawn takes the
+    // descriptor it is given, so the two are saved first and put back before this process prints its verdict.
+    let cross = cfg.io.contains(&'o') || cfg.io.contains(&'e');
+    let (save1, save2) = if cross {
+        unsafe { (kit::raw(sc::nr::DUP, [1, 0, 0, 0, 0, 0]) as i32, kit::raw(sc::nr::DUP, [2, 0, 0, 0, 0, 0]) as i32) }
+    } else {
+        (-1, -1)
+    };
     let st = |c: char| match c {
         'n' => Some(Stdio::Null),
         'p' => Some(Stdio::MakePipe),
         'r' => Some(Stdio::RawFd(rusl::platform::Fd::try_new(rawfd).unwrap())),
+        'o' => Some(Stdio::RawFd(rusl::platform::Fd::try_new(1).unwrap())),
+        'e' => Some(Stdio::RawFd(rusl::platform::Fd::try_new(2).unwrap())),
         _ => None,
     };
     if let Some(s) = st(cfg.io[0]) {
@@ -320,6 +330,8 @@ fn case_main(cfgs: &str, faults: &str) {
                     'n' => t == "/dev/null",
                     'p' => t.starts_with("pipe:"),
                     'r' => t.ends_with("/raw"),
+                    'o' => t == inherit[1],
+                    'e' => t == inherit[2],
                     _ => t == inherit[i],
                 };
                 if !okk {
@@ -339,6 +351,14 @@ fn case_main(cfgs: &str, faults: &str) {
             }
         }
     };
+    if cross {
+        unsafe {
+            kit::raw(sc::nr::DUP2, [save1 as usize, 1, 0, 0, 0, 0]);
+            kit::raw(sc::nr::DUP2, [save2 as usize, 2, 0, 0, 0, 0]);
+        }
+        kit::raw_close(save1);
+        kit::raw_close(save2);
+    }
     println!(
         "res={} returned={} ctrace={} status={} status2={} waits={} pre={} img={} seen={} stray={} handed={} leaked={} ptrace={}",
         res_s,
